@@ -185,7 +185,7 @@ PROPERTIES = {
     "C14": dict(G_HTTPGEN,
                 overlay={"internal/httpgen/zz_verif_c12_common.go": "harness/c12/c12_common.go",
                          "internal/httpgen/zz_verif_c14.go": "harness/c14/c14_codecs.go"},
-                harnesses=[dict(func="VerifC14CodecFiles", reach=["C14/compared", "C14/kf-no-service", "C14/kf-unwrap"], quick=dict(budget=300), thorough=dict(budget=900))],
+                harnesses=[dict(func="VerifC14CodecFiles", reach=["C14/compared", "C14/no-service", "C14/kf-unwrap"], quick=dict(budget=300), thorough=dict(budget=900))],
                 bounds_text={"quick": "one file, with or without a service, holding one message per codec feature (int64 NUMBER singular+repeated, partially annotated enum, nullable, empty_behavior x3, timestamp_format x3, bytes_encoding x4, flatten+prefix, discriminated oneof flattened or not with custom oneof_value, root unwrap); field names, JSON names (independent of the names), prefixes, discriminators and custom values symbolic strings <= 3; both generators run in full and their emission traces are compared line by line"},
                 assumptions=["GoIdent operands are rendered by the recording stub as <import path>.<name> for both generators alike",
                              "annotated types defined in other files of the run and plugin-order effects on the file system are not part of this check"]),
